@@ -7,6 +7,7 @@ CONSTANTS
   MaxRetries = 2
   DeadlineFails = FALSE
   AsImplemented = TRUE
+  CorruptIgnoresMeta = FALSE
   MayRelease = FALSE
 INVARIANTS GenCase
 CONSTRAINT Bounded
